@@ -399,5 +399,5 @@ var c02Tamper = probe.Define("C02", "tamper", func(t *rapid.T) c02In {
 
 func TestC02(t *testing.T) {
 	c := probe.NewCtx(t, "C02")
-	c02Tamper.Run(c, t, c.N(120, 2000))
+	c02Tamper.Run(c, t, c.N(120, 1200))
 }
